@@ -275,6 +275,45 @@ Proof.
   apply (prefix_incl _ _ Hp). eapply nth_error_In. exact He1.
 Qed.
 
+(* boolean equality of logs, boolean prefix test (executable guards) *)
+Definition entry_eqb (a b : entry) : bool := (fst a =? fst b)%N && (snd a =? snd b)%N.
+
+Lemma entry_eqb_eq a b : entry_eqb a b = true -> a = b.
+Proof.
+  destruct a as [a1 a2], b as [b1 b2]. unfold entry_eqb. simpl. intro H.
+  apply andb_prop in H. destruct H as [H1 H2].
+  apply N.eqb_eq in H1. apply N.eqb_eq in H2. subst. reflexivity.
+Qed.
+
+Lemma entry_eqb_refl a : entry_eqb a a = true.
+Proof. destruct a. unfold entry_eqb. simpl. rewrite !N.eqb_refl. reflexivity. Qed.
+
+Fixpoint log_eqb (a b : list entry) : bool :=
+  match a, b with
+  | [], [] => true
+  | x :: a', y :: b' => entry_eqb x y && log_eqb a' b'
+  | _, _ => false
+  end.
+
+Lemma log_eqb_eq a : forall b, log_eqb a b = true -> a = b.
+Proof.
+  induction a as [|x a IH]; intros [|y b] H; simpl in H; try discriminate; [reflexivity|].
+  apply andb_prop in H. destruct H as [H1 H2].
+  apply entry_eqb_eq in H1. apply IH in H2. subst. reflexivity.
+Qed.
+
+Lemma log_eqb_refl a : log_eqb a a = true.
+Proof. induction a as [|x a IH]; simpl; [reflexivity|]. rewrite entry_eqb_refl, IH. reflexivity. Qed.
+
+Definition prefixb (X Y : list entry) : bool := log_eqb (firstn (length X) Y) X.
+
+Lemma prefixb_true X Y : prefixb X Y = true <-> prefix X Y.
+Proof.
+  unfold prefixb. split.
+  - intro H. apply log_eqb_eq in H. apply prefix_iff. exact H.
+  - intro H. apply prefix_iff in H. rewrite H. apply log_eqb_refl.
+Qed.
+
 (* ------------------------------------------------------------------ *)
 (* merge of request entries into the follower's log tail                *)
 (* ------------------------------------------------------------------ *)
